@@ -101,6 +101,7 @@ class Gen(object):
         self.str_args = self.profile in ("hyphe-ascii", "adversarial-text") and rng.random() < 0.2
         self.encoding = "latin-1" if (self.str_args and rng.random() < 0.3) else "utf-8"
         self.str_prob = 0.5
+        self.text_anchors = rng.random() < 0.6  # rule anchors given to the constructor / clear() as text
         if self.encoding == "latin-1":
             # non-ASCII text given as str must be stored under its latin-1 bytes, and the same page
             # given as bytes must be the same page
@@ -216,13 +217,20 @@ class Gen(object):
                 o["lrus"] += [self.e(self.lru()) for _ in range(r.randint(1, 3))]
                 o["fault_at"] = r.randrange(len(o["lrus"]))
             return o
+        if k == "add_links" and self.prop == "C10" and r.random() < 0.006:
+            # hundreds of link-bearing source pages in one webentity (source-page counts beyond 256)
+            base = r.choice(self.pool)
+            st = stems(base)
+            root = b"".join(st[: max(1, min(len(st), 3))])
+            tgt = self.lru()
+            return {"op": k, "links": [[enc(root + b"p:s%03d|" % ((i_ * 7919 + 3) % 1000)), enc(tgt)] for i_ in range(r.choice([270, 320]))]}
         if k == "add_links" and self.bulk and r.random() < 0.5:
             # a hub: the same few links submitted thousands of times (lists longer than
             # the library's internal yield / window sizes)
             self.bulk = False
             tgt = self.lru()
             links = [[enc(self.lru()), enc(tgt)] for _ in range(r.choice([1, 2, 3]))]
-            return {"op": k, "links": links, "repeat": r.choice([2100, 4097, 5001]) if self.prop not in ("C15", "C18", "C11") else (r.choice([260, 300]) if self.prop in ("C18", "C11") else r.choice([300, 600, 2100]))}
+            return {"op": k, "links": links, "repeat": r.choice([2100, 4096, 4097, 5001, 8192]) if self.prop not in ("C15", "C18", "C11") else (r.choice([260, 300]) if self.prop in ("C18", "C11") else r.choice([300, 600, 2100]))}
         if k == "add_links" and r.random() < 0.03:
             return {"op": k, "links": []}
         if k == "add_links" and r.random() < 0.03:
@@ -321,6 +329,21 @@ class Gen(object):
             return {"op": "create_many", "base": enc(b"s:http|h:com|h:many|"), "count": r.choice([254, 255, 256, 257, 300])}
         if k == "reopen" and self.prop in ("C12", "C11", "C06", "C04") and r.random() < 0.12:
             return {"op": "reopen_older_release"}
+        if k == "create_we" and self.prop == "C09" and r.random() < 0.012:
+            # a webentity with hundreds of prefixes, pages under a dozen of them (prefix indexes
+            # beyond the small-integer range in tokens and loops)
+            base = r.choice(self.pool)
+            st = stems(base)
+            root = b"".join(st[: max(1, min(len(st), 3))])
+            n_ = r.choice([260, 300])
+            ps = [root + b"p:e%03d|" % ((i_ * 7919 + 3) % 1000) for i_ in range(n_)]
+            ps = list(dict.fromkeys(ps))
+            lr = []
+            for p in r.sample(ps, 14):
+                self.created_prefixes.append(p)
+                lr.extend([p + b"p:x|", p + b"p:y|"])
+            self.queue.append({"op": "add_pages", "lrus": [enc(x) for x in lr], "crawled": r.random() < 0.5})
+            return {"op": k, "prefixes": [enc(p) for p in ps]}
         if k == "create_we" and self.prop in ("C09", "C10") and r.random() < 0.06:
             # a webentity with many prefixes (tokens must carry prefix indexes of two digits)
             base = r.choice(self.pool)
@@ -366,11 +389,11 @@ class Gen(object):
             return {"op": k, "prefix": self.e(p), "ref": enc(self.ref())}
         if k == "remove_prefix":
             p = self.ref()
-            return {"op": k, "prefix": self.e(p), "mode": r.choice(["noweid", "noweid", "right", "right", "wrong"])}
+            return {"op": k, "prefix": self.e(p), "mode": r.choice(["noweid", "noweid", "right", "right", "wrong", "none", "zero"])}
         if k == "move_prefix":
             p = self.ref() if r.random() < 0.7 else self.prefix()
             self.created_prefixes.append(p)
-            return {"op": k, "prefix": self.e(p), "ref": enc(self.ref()), "mode": r.choice(["noweid", "right", "right", "wrong"])}
+            return {"op": k, "prefix": self.e(p), "ref": enc(self.ref()), "mode": r.choice(["noweid", "right", "right", "wrong", "none", "zero"])}
         if k == "add_rule" and self.rules and r.random() < 0.35:
             a, nm = r.choice(self.rules)
             o = {"op": k, "anchor": enc(a), "rule": nm}
@@ -453,6 +476,8 @@ class Gen(object):
             if a is None:
                 return {"op": "add_page", "lru": enc(self.lru()), "crawled": False}
             return {"op": k, "anchor": enc(a)}
+        if k == "reopen" and self.prop in ("C19", "C03", "C01", "C12", "C07") and r.random() < 0.08:
+            return {"op": "reopen_overwrite"}  # overwrite=True on a folder that holds an index
         if k == "reopen":
             return {"op": "reopen"}
         raise ValueError(k)
@@ -471,6 +496,7 @@ class Gen(object):
     def config(self, **extra):
         cfg = {
             "encoding": self.encoding,
+            "text_anchors": bool(self.str_args and self.text_anchors),
             "yield_every": self.yield_every,
             "backend": self.backend,
             "profile": self.profile,
@@ -484,10 +510,13 @@ class Gen(object):
         self.initial_rules = list(self.rules)
         ops = self.ops()
         nsweep = self.rng.choice([1, 1, 2, 4, 8]) if self.nops <= 40 else self.rng.choice([4, 8, 16])
-        if any(o["op"] in ("add_pages_seq", "create_many") or o.get("repeat") for o in ops):
+        def _big(o):
+            return o["op"] in ("add_pages_seq", "create_many") or o.get("repeat") or len(o.get("links", ())) > 200 or len(o.get("prefixes", ())) > 200
+
+        if any(_big(o) for o in ops):
             # a big corpus: sweep it once, at the end, and keep what follows it short
             nsweep = 0
-            k_ = [i for i, o in enumerate(ops) if o["op"] in ("add_pages_seq", "create_many") or o.get("repeat")][0]
+            k_ = [i for i, o in enumerate(ops) if _big(o)][0]
             ops = ops[: k_ + 4]
         if self.deep_chain:
             nsweep = 0
